@@ -42,6 +42,7 @@ type Opts struct {
 	LosslessU   bool // sample units that print losslessly
 	Columns     bool // non-zero columns
 	FixedTypes  []VT // when set, use exactly these sample types
+	OddTypes    bool // sample types with an empty name and/or unit (legal; the all-empty one encodes to a zero-length message)
 	Folded      bool
 }
 
@@ -171,6 +172,10 @@ func NewUniverse(t *rapid.T, o Opts) *Universe {
 			seen[vt.Type] = true
 			u.Types = append(u.Types, vt)
 		}
+		if o.OddTypes && len(u.Types) > 0 && rapid.IntRange(0, 4).Draw(t, "oddtype") == 0 {
+			i := rapid.IntRange(0, len(u.Types)-1).Draw(t, "oddtypeidx")
+			u.Types[i] = rapid.SampledFrom([]VT{{"", ""}, {"", ""}, {"", "count"}, {u.Types[i].Type, ""}}).Draw(t, "oddtypeval")
+		}
 		if o.LosslessU {
 			for len(u.Types) < nt {
 				u.Types = append(u.Types, VT{fmt.Sprintf("t%d", len(u.Types)), "count"})
@@ -223,7 +228,9 @@ func NewUniverse(t *rapid.T, o Opts) *Universe {
 		nd := rapid.IntRange(0, 2).Draw(t, "ndupf")
 		for i := 0; i < nd; i++ {
 			f := u.Funcs[rapid.IntRange(0, len(u.Funcs)-1).Draw(t, "dupfidx")]
-			switch rapid.IntRange(0, 3).Draw(t, "fattr") {
+			switch rapid.IntRange(0, 4).Draw(t, "fattr") {
+			case 4:
+				f.Filename = "other/" + f.Filename // same base name, another directory
 			case 0:
 				f.Name += "2"
 			case 1:
